@@ -3,13 +3,60 @@ SPEC = {
     'harness': 'hC22',
     'coq_dir': 'C22',
     'claimed': False,
-    'theorems': ['C22_stub'],
+    'theorems': ['C22_admitted_implies_acceptable_partial', 'C22_group_members_checked',
+                 'C22_rejected_leaves_pool_unchanged', 'C22_admitted_appends_one',
+                 'C22_admitted_implies_acceptable_refuted', 'C22_refuted_forward', 'C22_refuted_wrapper',
+                 'C22_refuted_negfee', 'C22_refuted_hdrempty', 'C22_guards_satisfiable'],
     'allowed_axioms': [],
     'shard': 8,
     'check_preamble': 'From C33 Require Import C22.Model.\nOpen Scope Z_scope.\n',
-    'rule': 'tbd',
-    'trusted_base': [],
-    'assumptions': [],
-    'manifest': {'level_text': 'tbd', 'level_note': 'tbd', 'technique': 'tbd'},
+    'rule': 'one case = one history of EventTx messages (6-14 quick, 6-24 thorough; the clause matrix up to ~50) sent through the '
+            'message queue to one real Mempool (SimpleQueue, its own eventProcess/pipeline goroutines) whose neighbour modules '
+            '(blockchain: header, sync state, on-chain hashes; execs: CheckTx verdicts; rpc: evm nonces; p2p) are scripted; '
+            'after every message the reply class (20 classes) and the membership of every hash of the history '
+            '(EventTxListByHash) and EventGetMempoolSize are recorded. Transactions are real (secp256k1 / secp256k1eth '
+            'signatures, CreateTxGroup-style groups of 2-8) and carry their facts by construction. Streams: witness-* (the 4 '
+            'refutation witnesses), matrix (every single-clause violation x {plain, group head, member 1, last member} x '
+            '{main chain, parachain}, each next to an accepted twin), matrix-pairs (pairs of violations), matrix-tiers (fee '
+            'tiers at and around the boundaries, MaxTxNumber 10/20), matrix-limits (per-sender limit, capacity, '
+            'resubmission), guarded (random histories satisfying the 4 guards: every spec failure is a violation), '
+            'unrestricted (may be forwarded, have a foreign wrapper, a negative fee under rate 0, a ground header). Random '
+            'configuration per history: main/para, MaxTxNumber 10..10000, MinTxFeeRate 0/1000/100000, tiered fee, MaxTxFeeRate, '
+            'per-sender limit 1-3, capacity 2-6, exec check on/off, synced or not, height 1-30, block time, evm nonces. '
+            'non-trivial = at least one accepted and one rejected submission; distinct = distinct Gallina case terms',
+    'trusted_base': [
+        'elementary facts are inputs of the model: signature validity, recipient validity, blacklist hit, on-chain, '
+        'executor verdict, sender identity, hash identity, proto size, "Header parses as an empty Transactions"; the harness '
+        'creates each fact by construction (it signs or corrupts, picks a valid/invalid/blacklisted address, scripts the '
+        'blockchain/execs/rpc replies) and measures only Size, Hash identity and header decodability',
+        'neighbour modules are scripted on the message queue (as in the repository\'s own mempool tests): util.CheckDupTx, '
+        'the executor check and getCurrentNonce run for real against scripted replies; the real blockchain/executor '
+        'answers are not part of this property',
+        'SimpleQueue is the queue (timeline mempool); reply classes are a function of the error text '
+        '(group-structure errors form one class); the address-validity cache of address.CheckAddress (C19) is avoided by '
+        'using each recipient string with one fixed validity',
+        'parachain title rules inside Transactions.CheckWithFork (ErrTxGroupParaCount / ParaMainMixed) are not modelled; '
+        'generated groups use one execer',
+        'blacklist dimensions exercised: sender and recipient (GetRealToAddr / evm payload targets fold into the same '
+        'boolean fact and are not generated)',
+    ],
+    'assumptions': [
+        'cfg_ok: MinTxFeeRate >= 0 and MaxTxFeeRate >= 0',
+        'the header is fixed during a history (no EventAddBlock between submissions) and the clock is pinned with '
+        'types.SetTimeDelta; submissions are sequential (one reply awaited before the next message)',
+        'partial: guards g_fwd, g_wrap, g_fee, g_hdr (each shown necessary by a refutation reproduced on the Go code)',
+    ],
+    'manifest': {
+        'level_text': 'partial: "accepted implies acceptable" proved for all configurations, pools and submissions under four '
+                      'boolean guards; without each guard the statement is refuted on the model and reproduced on the real '
+                      'mempool (4 open findings: parachain forwarding shortcut, unauthenticated group wrapper, negative fee '
+                      'under zero minimum rate, group-member expiry skipped when the group hash parses as protobuf). '
+                      'Rejected submissions leave the pool unchanged; accepted ones append exactly the submitted transaction',
+        'level_note': 'model = hand-written Gallina transcription of eventTx/checkTxs/checkTx/checkLevelFee/checkSign/'
+                      'checkTxRemote/evmTxNonceCheck/txCache.Push and Transaction(s).Check/GetRealFee/isExpire over abstract '
+                      'transaction facts; tied to the Go code by per-submission correspondence of reply class and pool '
+                      'membership; neighbour modules scripted',
+        'technique': 'Coq proof (case analysis of the admission pipeline; refutations by computation) + in-kernel correspondence check',
+    },
     'harness_timeout': {'quick': 300, 'thorough': 3000},
 }
